@@ -28,7 +28,11 @@ def hierarchy(draw):
         return (li[0] + draw(st.integers(0, 1))) % len(LIT)
     out_mods = []
     for m in mods:
-        out_mods.append({"name": m, "meths": [["%s_m%d" % (m.lower(), k), lit()] for k in range(draw(st.integers(1, 2)))]})
+        md = {"name": m, "meths": [["%s_m%d" % (m.lower(), k), lit()] for k in range(draw(st.integers(1, 2)))]}
+        if draw(st.integers(0, 2)) == 0:
+            md["sect"] = {"vis": draw(st.sampled_from(["private", "protected"])), "name": "%s_sec" % m.lower(), "lit": lit(),
+                          "after": "%s_aft" % m.lower(), "lit2": lit()}
+        out_mods.append(md)
     out_cls = []
     for i, c in enumerate(cls):
         d = {"name": c, "parent": None, "inc": [], "ext": [], "init": None, "imeths": [], "cmeths": [], "sclass": False, "reopen": False}
@@ -52,7 +56,8 @@ def hierarchy(draw):
             d["imeths"].append(["%s_%s" % (c.lower(), v[:4]), lit(), v])
         d["reopen"] = draw(st.integers(0, 4)) == 0
         out_cls.append(d)
-    allm = sorted({m[0] for d in out_cls for m in d["imeths"]} | {m[0] for d in out_cls for m in d["cmeths"]} | {m[0] for d in out_mods for m in d["meths"]})
+    allm = sorted({m[0] for d in out_cls for m in d["imeths"]} | {m[0] for d in out_cls for m in d["cmeths"]} | {m[0] for d in out_mods for m in d["meths"]}
+                  | {d["sect"][k] for d in out_mods if d.get("sect") for k in ("name", "after")})
     probes = []
     for _ in range(draw(st.integers(4, 8))):
         c = cls[draw(st.integers(0, len(cls) - 1))]
@@ -83,9 +88,20 @@ def render_and_model(case):
     for m in case["mods"]:
         lines.append(ind + "module %s" % m["name"])
         imeth[m["name"]] = {}
+        vis[m["name"]] = {}
         for name, l in m["meths"]:
             imeth[m["name"]][name] = LIT[l][1]
             lines += [ind + "  def %s" % name, ind + "    %s" % LIT[l][0], ind + "  end"]
+        sect = m.get("sect")
+        if sect:
+            # a visibility section inside the module, closed again by a bare `public`
+            lines.append(ind + "  " + sect["vis"])
+            imeth[m["name"]][sect["name"]] = LIT[sect["lit"]][1]
+            vis[m["name"]][sect["name"]] = sect["vis"]
+            lines += [ind + "  def %s" % sect["name"], ind + "    %s" % LIT[sect["lit"]][0], ind + "  end"]
+            lines.append(ind + "  public")
+            imeth[m["name"]][sect["after"]] = LIT[sect["lit2"]][1]
+            lines += [ind + "  def %s" % sect["after"], ind + "    %s" % LIT[sect["lit2"]][0], ind + "  end"]
         lines.append(ind + "end")
     # the last `inner` classes live in a namespace of their own inside the group (module Inn) and name the classes and
     # modules one level up without qualification
@@ -156,7 +172,9 @@ def render_and_model(case):
     # call sites inside the namespace: a class of the group calls class methods of the others by their unqualified names
     inside = []
     if case.get("inside"):
-        cps = [p for p in case["probes"] if p["kind"] == "class"]
+        # (a non-public method of an extended module on the class side is not modelled: no call site for it)
+        hidden = {x["sect"]["name"] for x in case["mods"] if x.get("sect")}
+        cps = [p for p in case["probes"] if p["kind"] == "class" and p["m"] not in hidden]
         if cps:
             lines.append(ind + "class Zcaller")
             for k, p in enumerate(cps):
@@ -230,6 +248,10 @@ def render_and_model(case):
                 exp.append([row, "OK" if v == "public" else "ERR", t, "inst-" + v + ("-inherited" if owner != c else "")])
         elif p["kind"] == "class":
             r = find_c(c, p["m"])
+            if r is not None and vis.get(r[0], {}).get(p["m"], "public") != "public":
+                continue      # a non-public method of an extended module on the class side: not modelled
+            if r is None and any(p["m"] in (x.get("sect") or {}).values() for x in case["mods"]):
+                continue
             lines.append("dbtp %s.%s" % (qual(c), p["m"]))
             exp.append([row, "ERR" if r is None else "OK", None if r is None else r[1], "class-undefined" if r is None else ("class-" + ("own" if r[0] == c else "inherited"))])
         else:
